@@ -728,6 +728,38 @@ theorem C08_result_conforms (W : World N V T) (ret : Option T) (r : V) :
   rw [convBy_eq]
   cases Spec.convO W ret r <;> rfl
 
+/-! ### the decorator's Options and `**kwargs` -/
+
+/-- **the declaration wins**: whatever `addition` the decorator's Options carry — unset, False, True, a type, or the
+False implied by `no_data_loss` — a declared `**kwargs: T` receives the additional keys converted to `T`
+(func.py:242-249 appends the implicit `Options(addition=T or True)` after the user's options).  Together with
+`C08_binding_partial`, which is stated for every `Opts` (`addition`, `noDataLoss`, `ignoreRequired`,
+`data_first_search`, `ignore_alias_conflicts`), a call Python binds reaches the body with its `**kwargs` values
+converted to the annotation under all of these options. -/
+theorem C08_kwargs_declaration_wins (s : Sig N V T) (o : Opts) (n : N) (t : Option T) (h : s.vk = some (n, t)) :
+    effAddition s o = .allow t := effAddition_vk s o n t h
+
+/-- without `**kwargs` the decorator's value stands: unknown keys are dropped (unset), refused (False / no_data_loss),
+and a truthy value is rejected when the function is decorated -/
+theorem C08_no_kwargs_addition (s : Sig N V T) (o : Opts) (h : s.vk = none) :
+    (o.userAddition = none → effAddition s o = .drop) ∧
+    (o.userAddition = some false → effAddition s o = .deny) ∧
+    (o.userAddition = some true → declOk s o = false) := by
+  refine ⟨?_, ?_, ?_⟩ <;> intro hu
+  · unfold effAddition; rw [h, hu]
+  · unfold effAddition; rw [h, hu]
+  · unfold declOk; rw [h, hu]; rfl
+
+/-- the other merge order (the user's options applied on top of the implicit one): `no_data_loss` would refuse every
+additional key of a function that declares `**kwargs` -/
+def effAdditionUserLast (s : Sig N V T) (o : Opts) : Addition T :=
+  match o.userAddition with
+  | some false => .deny
+  | some true => .allow none
+  | none => match s.vk with
+    | some (_, t) => .allow t
+    | none => .drop
+
 /-! ### witnesses: the full statement is false of the code, the hypotheses are satisfiable -/
 
 /-- a concrete world: names, values and types are numbers; names ≥ 1000 are private; `lower` folds 500-999 onto
@@ -830,5 +862,18 @@ theorem C08_truthy_forward_witness :
       = [.yielded 0, .yielded 100, .yielded 205, .returned none] ∧
     Spec.genTrace W₂ {} demoStep' 0 none [some 0, some 5, none]
       = [.yielded 0, .yielded 100, .yielded 205, .returned none] := by decide
+
+/-- the binding of the demo call is the same under every decorator-level option the model knows, and the `**kwargs`
+value arrives converted (`(20, 101)`); with the user's options merged last instead, `no_data_loss` / `addition=False`
+would refuse the key and `addition=True` would drop the annotation -/
+theorem C08_options_witness :
+    (∀ o ∈ ([{ noDataLoss := true }, { addition := some false }, { addition := some true },
+             { noDataLoss := true, addition := some true, ignoreRequired := true, dfs := none },
+             { ignoreRequired := true, dfs := some true }] : List Opts),
+      call W₁ sDemo o [10] [(100, 2), (4, 60), (20, 1)] = .body ⟨[110, 9, 5, 102], [], [60], [(20, 101)]⟩) ∧
+    (match effAdditionUserLast sDemo { noDataLoss := true } with | .deny => true | _ => false) = true ∧
+    (match effAdditionUserLast sDemo { addition := some true } with | .allow none => true | _ => false) = true ∧
+    (match effAddition sDemo { noDataLoss := true } with | .allow (some 0) => true | _ => false) = true := by
+  decide
 
 end Utv.C08
